@@ -8,42 +8,6 @@ every registrar configuration, every answer of the selector / transports / overr
 namespace CJ.Props.C12
 open CJ.Registrar
 
-/-- a successful registration is a successful `processBdReq` whose heap yields both views -/
-theorem register_ok {cfg : Cfg} {req : Req} {ext : Ext} {m : Nat} {a : Option String} {c : Resp} {f : Fwd}
-    (h : registerBidirectional cfg req ext m a = .ok c f) :
-    ∃ hf, processBdReq cfg { req with forgedResp := none } ext = .ok hf ∧ c = hf.get hf.rp ∧
-      f.resp = hf.wp.map hf.get ∧ f.signed = (if cfg.authenticated then hf.wp.map hf.get else none) := by
-  unfold registerBidirectional at h
-  simp only at h
-  split at h
-  · cases h
-  · cases h
-  · rename_i hf hbd
-    split at h
-    · cases h
-    · rename_i fw hw
-      split at h
-      · cases h
-        refine ⟨hf, hbd, rfl, ?_, ?_⟩
-        · unfold processC2SWrapper at hw
-          split at hw
-          · cases hw
-          · cases hw; rfl
-        · unfold processC2SWrapper at hw
-          split at hw
-          · cases hw
-          · cases hw; rfl
-      · cases h
-
-/-- the response state after `processBdReq`: both pointers name one object, whatever the subnet override did -/
-theorem final_aliased {cfg : Cfg} {req : Req} {ext : Ext} {hf : Heap} (h : processBdReq cfg req ext = .ok hf) :
-    hf.wp = some hf.rp := by
-  obtain ⟨h0, _, hpre, hsr⟩ := processBdReq_cases h
-  cases hsr with
-  | same => exact hpre.aliased
-  | minSub s ip hs hw hr ht hx => simp [hpre.aliased]
-  | pfxSub s ip id pre fl hs hw hr ht hd hp hx => rfl
-
 /-- **The client's view is the forwarded view.** The response returned to the client (phantom addresses,
 destination port, transport parameters) is the response carried by the wrapper published to the stations,
 and, on an authenticated registrar, the signed copy as well. -/
@@ -267,7 +231,7 @@ example : selected4 req0 ext0 = some 3405803783 ∧ excluded cfg0 (selected4 req
 example : ∀ s ∈ cfg0.minSubnets ++ cfg0.prefixSubnets, s.wf := by
   intro s hs
   simp [cfg0] at hs
-  rcases hs with rfl | rfl | rfl <;> intro _ <;> simp [Subnet.hosts]
+  rcases hs with rfl | rfl | rfl <;> intro _ <;> decide
 -- an excluded phantom (198.51.100.7 in 198.51.100.0/24) keeps its address
 example : (match registerBidirectional cfg0 req0 { ext0 with sel4 := .ok 3325256711 true } 4 none with
     | .ok c _ => c.v4 | _ => none) = some 3325256711 := by decide
